@@ -135,6 +135,27 @@ Section Suffix.
   Proof. apply blocks_items_suffix. Qed.
 End Suffix.
 
+(* ---- the loop depends on the item function only extensionally ---- *)
+Section Ext.
+  Context {A : Type} (strict : bool) (item1 item2 : A -> bytes -> out A).
+  Hypothesis Hext : forall a bs, item1 a bs = item2 a bs.
+  Lemma blocks_items_ext : forall fuel,
+    (forall a bs, blocks strict item1 fuel a bs = blocks strict item2 fuel a bs) /\
+    (forall n e a bs, items strict item1 fuel n e a bs = items strict item2 fuel n e a bs).
+  Proof.
+    induction fuel as [|f [IHb IHi]]; [split; reflexivity|]. split.
+    - intros a bs. cbn [blocks]. destruct (rdv strict bs) as [cnt r| | |]; cbn [obind]; try reflexivity.
+      destruct (cnt =? 0); [reflexivity|]. destruct (cnt <? 0); [|apply IHi].
+      destruct (rdv strict r) as [sz r'| | |]; cbn [obind]; try reflexivity.
+      destruct strict; [|apply IHi]. destruct ((cnt =? - two63) || (sz <? 0) || (len r' <? sz)); [reflexivity|apply IHi].
+    - intros n e a bs. cbn [items]. destruct (n <=? 0).
+      + destruct e as [e|]; [destruct (len bs =? e); [apply IHb|reflexivity]|apply IHb].
+      + rewrite Hext. destruct (item2 a bs); cbn [obind]; try reflexivity. apply IHi.
+  Qed.
+  Lemma blocks_ext fuel a bs : blocks strict item1 fuel a bs = blocks strict item2 fuel a bs.
+  Proof. apply blocks_items_ext. Qed.
+End Ext.
+
 (* ---- lax loop simulates the strict loop ---- *)
 Section Sim.
   Context {A B : Type} (R : A -> B -> Prop).
@@ -241,3 +262,66 @@ Section SkipSim.
     blocks true item1 fuel a bs = Done a' r -> skip_blocks skip_item fuel bs = Done tt r.
   Proof. apply blocks_items_skip. Qed.
 End SkipSim.
+
+(* ---- append-shaped items: both the reference decoder and the library's
+   reader decode one item independently of the accumulator and append it ---- *)
+Definition app_item {X} (f : bytes -> out X) (acc : list X) (bs : bytes) : out (list X) :=
+  obind (f bs) (fun x r => Done (acc ++ [x]) r).
+
+Fixpoint mapo {X Y} (conv : X -> option Y) (l : list X) {struct l} : option (list Y) :=
+  match l with
+  | [] => Some []
+  | x :: r => match conv x, mapo conv r with
+              | Some y, Some ys => Some (y :: ys)
+              | _, _ => None end
+  end.
+
+Section SimList.
+  Context {X Y : Type}.
+  Variables (f1 : bytes -> out X) (f2 : bytes -> out Y) (conv : X -> option Y).
+  Hypothesis Hf : forall bs x r y, f1 bs = Done x r -> conv x = Some y -> f2 bs = Done y r.
+
+  Lemma blocks_items_simlist : forall fuel,
+    (forall xs0 bs xsf r, blocks true (app_item f1) fuel xs0 bs = Done xsf r ->
+       exists new, xsf = xs0 ++ new /\
+         forall ys0 ysn, mapo conv new = Some ysn ->
+           blocks false (app_item f2) fuel ys0 bs = Done (ys0 ++ ysn) r) /\
+    (forall n e xs0 bs xsf r, items true (app_item f1) fuel n e xs0 bs = Done xsf r ->
+       exists new, xsf = xs0 ++ new /\
+         forall ys0 ysn, mapo conv new = Some ysn ->
+           items false (app_item f2) fuel n None ys0 bs = Done (ys0 ++ ysn) r).
+  Proof.
+    induction fuel as [|f [IHb IHi]]; [split; intros; discriminate|]. split.
+    - intros xs0 bs xsf r H. cbn [blocks] in H. inv_obind H.
+      pose proof (rdv_rd _ _ _ _ Ho : rdv false bs = _) as Ho'.
+      destruct (a =? 0) eqn:E0.
+      + injection H as <- <-. exists []. split; [symmetry; apply app_nil_r|].
+        intros ys0 ysn Hm. injection Hm as <-. cbn [blocks]. rewrite Ho'. cbn [obind]. rewrite E0, app_nil_r. reflexivity.
+      + destruct (a <? 0) eqn:En.
+        * inv_obind H. pose proof (rdv_rd _ _ _ _ Ho0 : rdv false r0 = _) as Ho0'.
+          destruct (a =? - two63) eqn:Emin; cbn [orb] in H; [discriminate|].
+          destruct ((a0 <? 0) || (len r1 <? a0)); [discriminate|].
+          destruct (IHi _ _ _ _ _ _ H) as (new & -> & Hn). exists new. split; [reflexivity|].
+          intros ys0 ysn Hm. cbn [blocks]. rewrite Ho'. cbn [obind]. rewrite E0, En, Ho0'. cbn [obind]. rewrite Emin. auto.
+        * destruct (IHi _ _ _ _ _ _ H) as (new & -> & Hn). exists new. split; [reflexivity|].
+          intros ys0 ysn Hm. cbn [blocks]. rewrite Ho'. cbn [obind]. rewrite E0, En. auto.
+    - intros n e xs0 bs xsf r H. cbn [items] in H. destruct (n <=? 0) eqn:En.
+      + assert (Hb : blocks true (app_item f1) f xs0 bs = Done xsf r).
+        { destruct e as [e|]; [destruct (len bs =? e); [exact H|discriminate]|exact H]. }
+        destruct (IHb _ _ _ _ Hb) as (new & -> & Hn). exists new. split; [reflexivity|].
+        intros ys0 ysn Hm. cbn [items]. rewrite En. auto.
+      + inv_obind H. unfold app_item in Ho. inv_obind Ho. injection Ho as <- <-.
+        destruct (IHi _ _ _ _ _ _ H) as (new & -> & Hn). exists (a0 :: new). split; [rewrite <- app_assoc; reflexivity|].
+        intros ys0 ysn Hm. cbn [mapo] in Hm. destruct (conv a0) as [y|] eqn:Ec; [|discriminate].
+        destruct (mapo conv new) as [ys|] eqn:Em; [|discriminate]. injection Hm as <-.
+        cbn [items]. rewrite En. unfold app_item at 1. rewrite (Hf _ _ _ _ Ho0 Ec). cbn [obind].
+        rewrite (Hn (ys0 ++ [y]) ys eq_refl). rewrite <- app_assoc. reflexivity.
+  Qed.
+
+  Lemma blocks_simlist fuel bs xsf r ys0 ysf :
+    blocks true (app_item f1) fuel [] bs = Done xsf r -> mapo conv xsf = Some ysf ->
+    blocks false (app_item f2) fuel ys0 bs = Done (ys0 ++ ysf) r.
+  Proof.
+    intros H Hm. destruct (proj1 (blocks_items_simlist fuel) _ _ _ _ H) as (new & -> & Hn). cbn [app] in Hm. auto.
+  Qed.
+End SimList.
